@@ -5,7 +5,7 @@
    kernels (scipy.linalg.solve, sigma ** 0.5, e^{-jw}) are data of the case; their contracts are
    validated on the case (Toeplitz residual, s*s = sigma). *)
 From Coq Require Import QArith Qminmax List Bool Arith PrimFloat.
-From NT Require Import F2Z Close QC AR.
+From NT Require Import F2Z Close QC AR ARP.
 Import ListNotations.
 Open Scope Q_scope.
 
@@ -27,6 +27,8 @@ Definition tol_tight : Q := 1 # 1000000000.
 Inductive case :=
 (* AR_est_LD(x, order, rxx): R as used (supplied, or utils.autocorr(x) computed by the harness) *)
 | KLD (R : list cfl) (order : nat) (fwd : bool) (tol : float) (ak : list cfl) (sigma : float)
+(* one loop pass: AR_est_LD at orders p-2, p-1, p on the same R *)
+| KLDS (R : list cfl) (p : nat) (ap : list cfl) (bpp : float) (ak : list cfl) (sigma : float)
 (* AR_est_YW: xs = scipy.linalg.solve(toeplitz(R[:order]), R[1:order+1]) called by the harness *)
 | KYW (R : list cfl) (order : nat) (fwd : bool) (tol : float) (xs : list cfl) (ak : list cfl) (sigma : float)
 (* AR_psd(ak, sigma, n_freqs, sides) -> (w, psd);  s = sigma ** 0.5, zs = exp(-1j * w) *)
@@ -48,7 +50,6 @@ Definition resid_ok (tol : Q) (order : nat) (Rq x : list C) : bool :=
 Definition check_ld (R : list cfl) (order : nat) (fwd : bool) (tol : float) (ak : list cfl) (sigma : float) : bool :=
   let Rq := map cf R in
   let t := f2q tol in
-  let '(am, bm) := AR_est_LD (firstn (order + 1) Rq) order in
   let aq := map cf ak in
   let sc := sum1 aq in
   all_fin R && all_fin ak && ffinite sigma && (1 <=? order)%nat && (order <? length R)%nat &&
@@ -56,9 +57,25 @@ Definition check_ld (R : list cfl) (order : nat) (fwd : bool) (tol : float) (ak 
   (length ak =? order)%nat &&
   (* the returned coefficients satisfy the normal equations (backward check, every case) *)
   resid_ok (Qmax t tol_tight) order Rq aq &&
-  (negb fwd ||
-   (all2 (ccloseb t sc) am aq &&
-    qcloseb t ((1 # 1000) * re (nthC Rq 0)) bm (f2q sigma))).
+  (if fwd then
+     let '(am, bm) := AR_est_LD (firstn (order + 1) Rq) order in
+     all2 (ccloseb t sc) am aq && qcloseb t ((1 # 1000) * re (nthC Rq 0)) bm (f2q sigma)
+   else true).
+
+(* one pass of the loop: from the implementation's order p-1 result (ap, and b_{p-2} = sigma of order
+   p-2, or R_0 when p = 2) the model's ld_step must give the implementation's order p result *)
+Definition check_lds (R : list cfl) (p : nat) (ap : list cfl) (bpp : float) (ak : list cfl) (sigma : float) : bool :=
+  let Rq := map cf R in
+  let apq := map cf ap in
+  let aq := map cf ak in
+  let sc := sum1 aq in
+  let st := mkLD apq (f2q bpp) (nthC apq (p - 2)) in
+  let st' := ld_step Rq st p in
+  all_fin R && all_fin ap && all_fin ak && ffinite bpp && ffinite sigma &&
+  (2 <=? p)%nat && (p <? length R)%nat && (length ap =? p - 1)%nat && (length ak =? p)%nat &&
+  all2 (ccloseb (1 # 10000000) sc) (ld_a st') aq &&
+  qcloseb (1 # 10000000) ((1 # 1000) * re (nthC Rq 0))
+          (ld_b st' * (1 - re (cmul (ld_k st') (cconj (ld_k st'))))) (f2q sigma).
 
 Definition check_yw (R : list cfl) (order : nat) (fwd : bool) (tol : float) (xs ak : list cfl) (sigma : float) : bool :=
   let Rq := map cf R in
@@ -77,9 +94,16 @@ Definition check_yw (R : list cfl) (order : nat) (fwd : bool) (tol : float) (xs 
   all2 (ccloseb tol_tight sc) am aq &&
   qcloseb tol_tight ssc sm (f2q sigma) &&
   (* and it agrees with the model's Levinson-Durbin solution *)
-  (negb fwd ||
-   (let '(al, bl) := AR_est_LD (firstn (order + 1) Rq) order in
-    all2 (ccloseb t sc) al aq && qcloseb t ((1 # 1000) * re (nthC Rq 0)) bl (f2q sigma))).
+  (if fwd then
+     let '(al, bl) := AR_est_LD (firstn (order + 1) Rq) order in
+     all2 (ccloseb t sc) al aq && qcloseb t ((1 # 1000) * re (nthC Rq 0)) bl (f2q sigma)
+   else true).
+
+(* AR_psd_pt is evaluated through the closed form it is proved equal to (no 7000-bit gcd) *)
+Definition psd_fast (s : Q) (ak : list C) (onesided : bool) (z : C) : Q :=
+  (if onesided then 2 else 1) * ((s * s) / cnorm2 (ar_den ak z)).
+Lemma psd_fast_eq s ak os z : ~ cnorm2 (ar_den ak z) == 0 -> AR_psd_pt s ak os z == psd_fast s ak os z.
+Proof. intros H. unfold psd_fast. apply AR_psd_formula; [reflexivity|exact H]. Qed.
 
 Definition check_psd (s sigma : float) (ak : list cfl) (onesided : bool) (n_freqs : nat) (zs : list cfl)
   (psd : list float) : bool :=
@@ -87,7 +111,11 @@ Definition check_psd (s sigma : float) (ak : list cfl) (onesided : bool) (n_freq
   ffinite s && ffinite sigma && all_fin ak && all_fin zs && forallb ffinite psd &&
   qcloseb (1 # 1000000000000) 0 (sq * sq) (f2q sigma) &&
   (length psd =? real_n n_freqs onesided)%nat && (length zs =? length psd)%nat &&
-  all2 (qcloseb tol_tight 0) (AR_psd sq (map cf ak) onesided (map cf zs)) (map f2q psd).
+  (let akq := map cf ak in
+   all2 (fun z x => let d := Qred (cnorm2 (ar_den akq (cf z))) in
+                    negb (Qeq_bool d 0) &&
+                    (* = psd_fast sq akq onesided (cf z), with the denominator computed once *)
+                    qcloseb tol_tight 0 ((if onesided then 2 else 1) * ((sq * sq) / d)) (f2q x)) zs psd).
 
 (* u[n] = sum_k coefs[k] u[n-1-k] + s v[n], for n >= from *)
 Definition rec_ok (s : Q) (coefs u v : list C) (from : nat) : bool :=
@@ -119,6 +147,7 @@ Definition check_genr (s sigma : float) (coefs : list cfl) (drop : nat) (u v : l
 Definition check (c : case) : bool :=
   match c with
   | KLD R order fwd tol ak sigma => check_ld R order fwd tol ak sigma
+  | KLDS R p ap bpp ak sigma => check_lds R p ap bpp ak sigma
   | KYW R order fwd tol xs ak sigma => check_yw R order fwd tol xs ak sigma
   | KPSD s sigma ak os nf zs psd => check_psd s sigma ak os nf zs psd
   | KGENV s sigma coefs drop vfull u v cout => check_genv s sigma coefs drop vfull u v cout
